@@ -3,7 +3,10 @@
 //! property monitors (conservation, order, drops, deadlock, panic).
 //!
 //! stdin, one scenario per line:
-//!   <flavour> <cap> <runs> <seed> [trace] | P: ops | P: ops | C: ops ...
+//!   <flavour> <cap> <runs> <seed> [trace] [pct|rand] [results] [oneline] | P: ops | P: ops | C: ops ...
+//!   (`pct` / `rand` force that policy for every run instead of the 2:1 mix; `results` adds a
+//!    `results t0=[..] t1=[..]` line (API results of the traced run) right after the result line;
+//!    `oneline` joins all output lines of the scenario with ` ;; ` into one line)
 //! thread ops: s (send) ts (try_send) r (recv) tr (try_recv) rt (recv_timeout 20us)
 //!             D (drain: recv until Disconnected)  y (yield)
 //! stdout per scenario:
@@ -200,6 +203,9 @@ struct Scenario {
   runs: usize,
   seed: u64,
   trace: bool,
+  force: Option<bool>,
+  show_results: bool,
+  oneline: bool,
   threads: Vec<ThreadSpec>,
 }
 
@@ -220,6 +226,9 @@ fn parse(line: &str) -> Scenario {
     runs: head[2].parse().unwrap(),
     seed: head[3].parse().unwrap(),
     trace: head.get(4) == Some(&"trace"),
+    force: if head[4.min(head.len())..].contains(&"pct") { Some(true) } else if head[4.min(head.len())..].contains(&"rand") { Some(false) } else { None },
+    show_results: head[4.min(head.len())..].contains(&"results"),
+    oneline: head[4.min(head.len())..].contains(&"oneline"),
     threads,
   }
 }
@@ -411,6 +420,20 @@ fn judge(sc: &Scenario, r: &OneRun) -> Option<(String, String)> {
   None
 }
 
+fn fmt_results(rs: &[Vec<Res>]) -> String {
+  let one = |r: &Res| match r {
+    Res::SendOk(i) => format!("ok:{i}"),
+    Res::SendFull(i) => format!("full:{i}"),
+    Res::SendClosed(i) => format!("closed:{i}"),
+    Res::SendClosedDropped(i) => format!("gone:{i}"),
+    Res::Val(i) => format!("val:{i}"),
+    Res::Empty => "empty".to_string(),
+    Res::Disc => "disc".to_string(),
+    Res::Timeout => "timeout".to_string(),
+  };
+  rs.iter().enumerate().map(|(t, v)| format!("t{t}=[{}]", v.iter().map(one).collect::<Vec<_>>().join(","))).collect::<Vec<_>>().join(" ")
+}
+
 fn main() {
   std::panic::set_hook(Box::new(|_| {}));
   let root = std::env::var("VERIF_REPO").unwrap_or_else(|_| "/repo".to_string());
@@ -431,7 +454,8 @@ fn main() {
     let mut first: Option<OneRun> = None;
     for i in 0..sc.runs {
       let seed = sc.seed.wrapping_mul(1_000_003).wrapping_add(i as u64);
-      let policy = if i % 3 == 2 { Policy::Pct(seed, 3) } else { Policy::Random(seed) };
+      let pct = sc.force.unwrap_or(i % 3 == 2);
+      let policy = if pct { Policy::Pct(seed, 3) } else { Policy::Random(seed) };
       let r = run_once(&sc, policy, sc.trace || i == 0);
       steps += r.steps;
       events += r.events;
@@ -444,30 +468,48 @@ fn main() {
         first = Some(r);
       }
     }
+    let mut lines: Vec<String> = Vec::new();
+    macro_rules! emit {
+      ($($a:tt)*) => { lines.push(format!($($a)*)) };
+    }
     let mut namer = Namer::new(&root);
     match fail {
       Some((c, d, i, seed, r)) => {
         let ch: Vec<String> = r.choices.iter().map(|c| c.to_string()).collect();
-        writeln!(out, "FAIL {c} run={i} seed={seed} :: {d} :: choices={}", ch.join(",")).unwrap();
+        emit!("FAIL {c} run={i} seed={seed} :: {d} :: choices={}", ch.join(","));
+        if sc.show_results {
+          emit!("results {}", fmt_results(&r.results));
+        }
         if sc.trace {
           namer.prime(&r.trace);
           for rec in &r.trace {
-            writeln!(out, "{}", format_rec(&mut namer, rec)).unwrap();
+            emit!("{}", format_rec(&mut namer, rec));
           }
-          writeln!(out, "end-trace").unwrap();
+          emit!("end-trace");
         }
       }
       None => {
-        writeln!(out, "ok runs={} steps={} events_recorded={} blocking_parks={}", sc.runs, steps, events, parks).unwrap();
+        emit!("ok runs={} steps={} events_recorded={} blocking_parks={}", sc.runs, steps, events, parks);
+        if sc.show_results {
+          emit!("results {}", first.as_ref().map(|r| fmt_results(&r.results)).unwrap_or_default());
+        }
         if sc.trace {
           if let Some(r) = first {
             namer.prime(&r.trace);
             for rec in &r.trace {
-              writeln!(out, "{}", format_rec(&mut namer, rec)).unwrap();
+              emit!("{}", format_rec(&mut namer, rec));
             }
           }
-          writeln!(out, "end-trace").unwrap();
+          emit!("end-trace");
         }
+      }
+    }
+    if sc.oneline {
+      // everything about this scenario on ONE output line (for line-oriented drivers)
+      writeln!(out, "{}", lines.join(" ;; ")).unwrap();
+    } else {
+      for l in &lines {
+        writeln!(out, "{l}").unwrap();
       }
     }
     out.flush().unwrap();
